@@ -7,6 +7,7 @@
 From Coq Require Import List NArith ZArith Bool Lia.
 From Verif Require Import Common.Util Common.GoInt Sched.Model Gen.GasLimit GenProofs.GasLimitProofs BaseFee.Model
      Header.Rules Header.Proofs Validation.Body Validation.Catalogue Validation.ProofsRules Validation.RuleCheck.
+From Verif Require Chain.Model Chain.Proofs Chain.ProofsChainInv Chain.ProofsChainDep Compose.Replay Compose.ReplayExamples.
 Import ListNotations.
 Open Scope N_scope.
 
@@ -302,3 +303,84 @@ Print Assumptions reject_class.
 Print Assumptions accepted_parent_sane.
 Print Assumptions rejected_leaves_no_trace.
 Print Assumptions single_mutation_applies.
+
+(* ================================================================ composition *)
+(* C02 <-> C09 (Compose/Replay.v).  The chain lookups has_tx / find_meta, abstract above, instantiated with C09's repository
+   (Chain/Model.v: HasTransaction / GetTransactionMeta on the parent's chain, Replay.has_tx_of / find_meta_of): the body and
+   re-execution rules of this file and C09's independently written `validate` give the same verdict on every block, and every
+   chain of blocks `process` accepted satisfies C09's first sentence.  Remaining premise: lookups_total (C02's lookups cannot
+   fail, C09's can on a corrupt database) - discharged on every repository reached by AddBlock calls. *)
+Section Composition.
+  Variable State : Type.
+  Variable exec : bctx -> State -> txn -> option (State * receipt).
+  Variable apply_updates : bool -> N -> State -> list (N * bool) -> State.
+  Variable rewards : bctx -> State -> option State.
+  Variable sanity : State -> bool.
+  Variable root_of_state : State -> N.
+  Variable root_of_receipts : list receipt -> N.
+  Variable root_of_txs : list txn -> N.
+  Notation process_on := (Replay.process_on State exec apply_updates rewards sanity root_of_state root_of_receipts root_of_txs).
+
+  (* 6. validateBlockBody: same verdict as C09's body_rules on every transaction list *)
+  Theorem body_check_same_verdict_as_c09 cfg num feats txs ctxs : Forall2 Replay.same_tx txs ctxs ->
+    match body_txs_check cfg num feats txs with
+    | None => Chain.Model.body_rules (c_chain_tag cfg) num ctxs = Chain.Model.V_ok
+    | Some c => match Replay.replay_class c with
+                | Some v => Chain.Model.body_rules (c_chain_tag cfg) num ctxs = v
+                | None => True
+                end
+    end.
+  Proof. exact (Replay.body_same_verdict cfg num feats txs ctxs). Qed.
+
+  (* 7. verifyBlock's loop: same verdict as C09's verify_loop on every transaction list, from every loop state *)
+  Theorem verify_loop_same_verdict_as_c09 r p ctx txs ctxs st proc used :
+    Replay.lookups_total r p -> Forall2 Replay.same_tx txs ctxs ->
+    match verify_txs State exec (Replay.has_tx_of r p) (Replay.find_meta_of r p) ctx txs st proc used with
+    | VOk _ _ rcs _ => Replay.exec_flags State exec ctx st txs = map r_reverted rcs /\
+                       Chain.Model.verify_loop r p proc ctxs (map r_reverted rcs) = Chain.Model.V_ok
+    | VBad _ v => match Replay.loop_class v with
+                  | Some cv => Chain.Model.verify_loop r p proc ctxs (Replay.exec_flags State exec ctx st txs) = cv
+                  | None => v = Other 53 \/ v = Critical 54
+                  end
+    end.
+  Proof. intros LT S. exact (Replay.verify_same_verdict State exec r p LT ctx txs ctxs S st proc used). Qed.
+
+  (* 8. the block: accepted iff C09's validate accepts and the rules C09 does not model hold *)
+  Theorem accepted_iff_c09_validate cfg pv parent st0 b now r cb st2 rcs :
+    wf_gas parent b -> Replay.linked cfg parent r b cb -> Replay.lookups_total r (Chain.Model.b_parent cb) ->
+    map Chain.Model.rc_rev (Chain.Model.b_rcs cb) = map r_reverted rcs ->
+    process_on r (Chain.Model.b_parent cb) cfg pv parent st0 b now = Accepted State st2 rcs <->
+    Chain.Model.validate r cb = Chain.Model.V_ok /\
+    Replay.accept_rest State exec apply_updates rewards sanity root_of_state root_of_receipts root_of_txs cfg pv parent st0 b now st2 rcs.
+  Proof. exact (Replay.process_accept_iff_validate State exec apply_updates rewards sanity root_of_state root_of_receipts root_of_txs cfg pv parent st0 b now r cb st2 rcs). Qed.
+
+  (* 9. every chain of blocks accepted by `process` carries every transaction at most once, with the chain tag, inside its
+        validity window (C09 accepted_chain_inv with its premise "every block passed validate" discharged) *)
+  Theorem accepted_chain_satisfies_c09 g gp tag (U : Chain.Model.txrec -> Prop) :
+    (forall t1 t2, U t1 -> U t2 -> Chain.Model.tx_id t1 = Chain.Model.tx_id t2 -> t1 = t2) ->
+    Chain.Model.num_of g = 0 -> Chain.Model.num_of gp = Chain.Model.max_u32 ->
+    forall r, Chain.Proofs.reachable g gp tag
+                (Replay.c02_accepted State exec apply_updates rewards sanity root_of_state root_of_receipts root_of_txs U) r ->
+    forall h, Chain.Proofs.stored r h ->
+      (forall a t, Chain.Proofs.anc r h a -> Chain.ProofsChainInv.tx_in r a t ->
+         U t /\ Chain.Model.tx_tag t = tag /\ Chain.Model.tx_ref t <= Chain.Model.num_of a /\
+         Chain.Model.num_of a <= Chain.Model.tx_ref t + Chain.Model.tx_exp t) /\
+      (forall a1 t1 a2 t2, Chain.Proofs.anc r h a1 -> Chain.Proofs.anc r h a2 -> Chain.ProofsChainInv.tx_in r a1 t1 ->
+         Chain.ProofsChainInv.tx_in r a2 t2 -> Chain.Model.tx_id t1 = Chain.Model.tx_id t2 -> a1 = a2) /\
+      (forall a s b, Chain.Proofs.anc r h a -> Chain.Model.get_block r a = Some (s, b) ->
+         NoDup (map Chain.Model.tx_id (Chain.Model.b_txs b))).
+  Proof. exact (Replay.c02_chain_at_most_once_in_window State exec apply_updates rewards sanity root_of_state root_of_receipts root_of_txs g gp tag U). Qed.
+End Composition.
+
+(* non-vacuity of 9: the fork history of Chain/Examples.v is a history of blocks accepted by `process` *)
+Example accepted_chain_example :
+  Chain.Proofs.reachable Chain.Examples.ex_g Chain.Examples.ex_gp Chain.Examples.ex_tag
+    (Replay.c02_accepted N ReplayExamples.x_exec (fun _ _ st _ => st) (fun _ st => Some (st + 1)) (fun _ => true) (fun st => st)
+                         (fun rs => N.of_nat (length rs)) (fun ts => N.of_nat (length ts)) ReplayExamples.x_U) Chain.Examples.ex_r4.
+Proof. exact (proj2 (proj2 (proj2 ReplayExamples.fork_history_accepted_by_c02))). Qed.
+
+Print Assumptions body_check_same_verdict_as_c09.
+Print Assumptions verify_loop_same_verdict_as_c09.
+Print Assumptions accepted_iff_c09_validate.
+Print Assumptions accepted_chain_satisfies_c09.
+Print Assumptions accepted_chain_example.
